@@ -59,7 +59,7 @@ def inv_specs():
 def oracle_cases(tier, rng):
     names = [s[0] for s in specs(None)]
     for nm in names:
-        for chk in ('dtype', 'convert', 'strided', 'accuracy'):
+        for chk in ('dtype', 'convert', 'strided', 'accuracy', 'default_call'):
             for rep in range(1 if tier == 'quick' else 4):
                 if chk == 'accuracy':
                     for kind in ('range', 'small', 'flat', 'gauss'):
@@ -67,7 +67,7 @@ def oracle_cases(tier, rng):
                 else:
                     yield dict(transform=nm, check=chk, seed=int(rng.integers(1 << 30)))
     for nm in [s[0] for s in inv_specs()]:
-        for chk in ('dtype', 'accuracy', 'none_dtype'):
+        for chk in ('dtype', 'accuracy', 'none_dtype', 'default_call'):
             yield dict(transform=nm, check=chk, seed=int(rng.integers(1 << 30)))
 
 def strat_key(cfg):
@@ -120,6 +120,24 @@ def oracle_run(cfg):
                     if u.dtype != torch.float32 or not torch.equal(u, v):
                         return dict(detail='.float() of a float64-built module differs from a module constructed under a float32 default')
                 return None
+            if chk == 'default_call':
+                # ONE float64 module, float64 data: values and gradients of a call must not depend on the process default dtype at call time
+                torch.set_default_dtype(torch.float64); m = mk().double()
+                res = []
+                for d0 in (torch.float64, torch.float32):
+                    torch.set_default_dtype(d0)
+                    x = torch.tensor(X, dtype=torch.float64, requires_grad=True)
+                    outs = [o for o in flat(m(x)) if o.numel()]
+                    gg = torch.Generator().manual_seed(cfg['seed'] % (2 ** 31))
+                    gs = [torch.randn(tuple(o.shape), generator=gg, dtype=torch.float64) for o in outs]
+                    gx, = torch.autograd.grad(outs, [x], gs)
+                    res.append(([o.detach() for o in outs], gx))
+                for u, v in zip(res[0][0], res[1][0]):
+                    if u.dtype != torch.float64 or v.dtype != torch.float64 or not torch.equal(u, v):
+                        return dict(detail='float64 forward values depend on the process default dtype: max diff %.3g' % float((u - v).abs().max()))
+                if not torch.equal(res[0][1], res[1][1]):
+                    return dict(detail='float64 gradient depends on the process default dtype: max diff %.3g' % float((res[0][1] - res[1][1]).abs().max()))
+                return None
             if chk == 'strided':
                 m = mk().double()
                 big = torch.tensor(r.standard_normal(tuple(shp[:-1]) + (2 * shp[-1],)))
@@ -162,6 +180,22 @@ def oracle_run(cfg):
                     o = mki().to(dt)((YL.to(dt), [h.to(dt) for h in YH]))
                     if o.dtype != dt:
                         return dict(detail='inverse output dtype %s for input %s (default %s)' % (o.dtype, dt, d0))
+            return None
+        if chk == 'default_call':
+            res = []
+            for d0 in (torch.float64, torch.float32):
+                torch.set_default_dtype(d0)
+                args = [YL.clone().requires_grad_(True)] + [h.clone().requires_grad_(True) for h in YH]
+                o = i64((args[0], args[1:]))
+                gg = torch.Generator().manual_seed(cfg['seed'] % (2 ** 31))
+                g0 = torch.randn(tuple(o.shape), generator=gg, dtype=torch.float64)
+                grads = torch.autograd.grad([o], args, [g0])
+                res.append((o.detach(), grads))
+            if res[0][0].dtype != torch.float64 or not torch.equal(res[0][0], res[1][0]):
+                return dict(detail='float64 inverse values depend on the process default dtype: max diff %.3g' % float((res[0][0] - res[1][0]).abs().max()))
+            for u, v in zip(res[0][1], res[1][1]):
+                if not torch.equal(u, v):
+                    return dict(detail='float64 inverse gradient depends on the process default dtype: max diff %.3g' % float((u - v).abs().max()))
             return None
         if chk == 'none_dtype':
             for d0 in (torch.float32, torch.float64):
